@@ -323,6 +323,23 @@ def atoms_text():
     emit("wz_flush", [("add_start", N), ("current_val_end", N), ("zoom_item_live_info_is_none", B), ("next_val_is_none", B),
                       ("zoom_item_records_is_empty", B), ("zoom_item_records_len", N), ("options_items_per_slot", N)], B,
          lambda: (R.cond_over(b, fl)))
+    zs = [("added_bases", "Int"), ("val", "Int"), ("zoom2_summary_min_val", "Int"), ("zoom2_summary_max_val", "Int"), ("add_start", "Int")]
+
+    def zoom_stats(prefix, body):
+        # the statistics a value adds to the live zoom record, and the fields a fresh record starts with
+        emit(prefix + "_bases_add", zs, "Int", lambda: (R.assign_expr(body, "zoom2.summary.bases_covered", "+=")))
+        emit(prefix + "_items_add", zs, "Int", lambda: (R.assign_expr(body, "zoom2.summary.total_items", "+=")))
+        emit(prefix + "_sum_add", zs, "Int", lambda: (R.assign_expr(body, "zoom2.summary.sum", "+=")))
+        emit(prefix + "_sumsq_add", zs, "Int", lambda: (R.assign_expr(body, "zoom2.summary.sum_squares", "+=")))
+        emit(prefix + "_min", zs, "Int", lambda: (R.assign_expr(body, "zoom2.summary.min_val", "=")))
+        emit(prefix + "_max", zs, "Int", lambda: (R.assign_expr(body, "zoom2.summary.max_val", "=")))
+        zr = body[body.find("ZoomRecord {"):] if body and "ZoomRecord {" in body else None      # the literal of a fresh record
+        emit(prefix + "_new_start", zs, "Int", lambda: (R.field_expr(zr, "start")))
+        emit(prefix + "_new_end", zs, "Int", lambda: (R.field_expr(zr, "end")))
+        emit(prefix + "_new_min", zs, "Int", lambda: (R.field_expr(zr, "min_val")))
+        emit(prefix + "_new_max", zs, "Int", lambda: (R.field_expr(zr, "max_val")))
+        emit(prefix + "_new_bases", zs, "Int", lambda: (R.field_expr(zr, "bases_covered")))
+    zoom_stats("wzs", b)
     # --- bigBed zoom path: process_val_zoom in bigbedwrite.rs (sweep, then the tiler over the flushed pieces) ----------
     b = region(read("bigtools/src/bbi/bigbedwrite.rs"), "process_val_zoom")
     emit("bzs_split", [("item_end", N), ("o_end", N)], B, lambda: (R.cond_over(b, {"item_end", "o_end"}, 0)))
@@ -338,6 +355,7 @@ def atoms_text():
     emit("bz_next_start", [("add_end", N), ("removed_start", N)], N, lambda: (R.assign_expr(b, "add_start")))
     emit("bz_full", [("zoom_item_records_len", N), ("options_items_per_slot", N)], B,
          lambda: (R.cond_over(b, {"zoom_item_records_len", "options_items_per_slot"})))
+    zoom_stats("bzs2", b)
     # --- bigBed summary sweep and section cut: process_val in bigbedwrite.rs -------------------------------------------
     b = region(read("bigtools/src/bbi/bigbedwrite.rs"), "process_val", after="let add_interval_to_summary")
     emit("bs_split", [("item_end", N), ("o_end", N)], B, lambda: (R.cond_over(b, {"item_end", "o_end"}, 0)))
@@ -470,6 +488,16 @@ def atoms_text():
     emit("rb_raw_len", [(x, N) for x in rbp], N, lambda: (R.inline_lets(R.vec_len_expr(b, "raw_data"), b, rbp, consts=brs)))
     emit("rb_inflate_buf", [(x, N) for x in rbp], N, lambda: (R.inline_lets(R.vec_len_expr(b, "outbuf"), b, rbp, consts=brs)))
     emit("rb_compressed", [(x, N) for x in rbp], B, lambda: (R.inline_lets(R.cond_over(b, {"uncompress_buf_size"}), b, rbp, consts=brs)))
+    # --- the staging buffer's reported length: TempFileBuffer::len in tempfilebuffer.rs ----------------------------------------
+    b = region(read("bigtools/src/utils/file/tempfilebuffer.rs"), "len")
+
+    def arm_ok(body, arm):
+        m = re.search(re.escape(arm) + r"\s*=>\s*Ok\((.*?)\)\s*,\s*\n", body)
+        if not m:
+            raise R.Unsupported("len(): arm " + arm + " not found")
+        return R.parse_expr(m.group(1))
+    emit("tb_len_inmem", [("data_len", N)], N, lambda: (arm_ok(b, "BufferState::InMemory(data)")))
+    emit("tb_len_notstarted", [], N, lambda: (arm_ok(b, "BufferState::NotStarted")))
     # --- pybigtools exact-bin and per-base array routines: which float format every integer → float conversion goes to -------
     # (the model computes bin borders and means in exact arithmetic; that is what `f64` gives for 32-bit coordinates and counts —
     # FR.f64_exact_u32 — and what `f32` does not)
